@@ -950,7 +950,7 @@ func canonStatus(js []byte) string {
 
 func c19Status(c *Ctx, s statusCase) {
 	obs, ran := c19Watch(func() string {
-		if s.mode == "tcp" {
+		if strings.HasPrefix(s.mode, "tcp") {
 			return runStatusTCP(s)
 		}
 		return runStatusMem(s)
@@ -1037,9 +1037,27 @@ func runStatusTCP(s statusCase) string {
 		defer func() { recover() }()
 		srv.AcceptConn(&conn)
 	}()
-	js, _, err := bot.PingAndList(l.Addr().String())
+	// every public entry point of the status ping must give the same outcome against the same server
+	addr := l.Addr().String()
+	var js []byte
+	var delay time.Duration
+	switch s.mode {
+	case "tcpto":
+		js, delay, err = bot.PingAndListTimeout(addr, 8*time.Second)
+	case "tcpctx":
+		js, delay, err = bot.PingAndListContext(context.Background(), addr)
+	case "tcpdl":
+		ctx, cancel := context.WithDeadline(context.Background(), time.Now().Add(8*time.Second))
+		js, delay, err = bot.PingAndListContext(ctx, addr)
+		cancel()
+	default:
+		js, delay, err = bot.PingAndList(addr)
+	}
 	if err != nil {
 		return "r=err"
+	}
+	if delay < 0 {
+		return "r=negdelay"
 	}
 	// pingAndList verifies the echoed payload itself (it returns an error on a mismatch)
 	return "r=" + canonStatus(js) + ",P:echo"
@@ -1296,6 +1314,13 @@ func genC19(c *Ctx) {
 			c2s: c19Pkts(r, n, t, 58, big, c19MarkerC2S), s2c: c19Pkts(r, n, t, guardID, big, c19MarkerS2C)})
 	}
 
+	// frames whose length prefix needs three VarInt bytes with the high bits set (>= 32768), both directions, plain,
+	// compressed-format-uncompressed (below the threshold) and deflated (incompressible and compressible payloads)
+	for _, t := range []int{-1, 0, 64, 40000} {
+		c19Join(c, joinCase{name: "big", host: "localhost", port: 25565, t: t, chk: "acc", reason: "no",
+			c2s: c19BigPkts(r, 58, c19MarkerC2S), s2c: c19BigPkts(r, guardID, c19MarkerS2C)})
+	}
+
 	// ---- dispatch: random registration histories and packet lists
 	for k := 0; k < c.N(3000, 12000); k++ {
 		c19Disp(c, c19Thresholds[r.Intn(len(c19Thresholds))], c19Regs(r, guardID, k), c19DispPkts(r, guardID, k))
@@ -1341,7 +1366,9 @@ func genC19(c *Ctx) {
 		c19Status(c, s)
 	}
 	for k := 0; k < c.N(5, 30); k++ {
-		c19Status(c, statusCase{mode: "tcp", name: "tcp", proto: -1, max: k, online: k / 2, desc: "loopback", ns: k % 3, seq: "LP"})
+		for _, mode := range []string{"tcp", "tcpto", "tcpctx", "tcpdl"} {
+			c19Status(c, statusCase{mode: mode, name: "tcp", proto: -1, max: k, online: k / 2, desc: "loopback", ns: k % 3, seq: "LP"})
+		}
 	}
 }
 
@@ -1423,6 +1450,26 @@ func c19ResumePkts(r *rand.Rand) []int32 {
 		} else {
 			out = append(out, 1+r.Int31n(3))
 		}
+	}
+	return out
+}
+
+// c19BigPkts: one packet of each size around 2^15 and 2^16, a small packet between them (it shows whether framing
+// survived the big one); seeds not divisible by 3 give non-periodic, incompressible bytes, one seed is compressible
+func c19BigPkts(r *rand.Rand, maxID int32, markerID int32) []playPkt {
+	var out []playPkt
+	for i, n := range []int{32767, 32768, 40000, 65535, 70000} {
+		id := 1 + r.Int31n(maxID-1)
+		if id == markerID {
+			id = 1
+		}
+		seed := r.Uint32()
+		if i == 2 {
+			seed -= seed % 3 // compressible
+		} else if seed%3 == 0 {
+			seed++
+		}
+		out = append(out, playPkt{id: id, n: n, seed: seed}, playPkt{id: 2, n: 3, seed: uint32(i)*3 + 1})
 	}
 	return out
 }
